@@ -130,6 +130,55 @@ func r10g(c *core.Ctx) {
 				return
 			}
 			stores++
+			// `l := lower(c); if l != c { s[i] = l }` with lower expanded: the value is phi(c+32 | c). Writing the octet
+			// just read is no change; the other leaves are judged where they are selected.
+			if phi, isPhi := st.Val.(*ssa.Phi); isPhi {
+				isElemV := func(v ssa.Value) bool {
+					ld, ok := v.(*ssa.UnOp)
+					if !ok || ld.Op != token.MUL {
+						return false
+					}
+					ia2, ok := ld.X.(*ssa.IndexAddr)
+					return ok && ia2.X == ia.X
+				}
+				okAll, nLeaf := true, 0
+				why := ""
+				for i, e := range phi.Edges {
+					if isElemV(e) {
+						continue // identity write
+					}
+					nLeaf++
+					pred := phi.Block().Preds[i]
+					hi, okHi := maxAt(pred, isElemV)
+					lo, okLo := minAt(pred, isElemV)
+					// the edge's own condition
+					if len(pred.Succs) == 2 {
+						if iff, ok := pred.Instrs[len(pred.Instrs)-1].(*ssa.If); ok {
+							_ = iff
+						}
+					}
+					bo, isB := e.(*ssa.BinOp)
+					delta := int64(0)
+					if isB && (bo.Op == token.ADD || bo.Op == token.OR) && isElemV(bo.X) {
+						delta, _ = core.ConstInt(bo.Y)
+					}
+					if !okHi || !okLo || hi != 'Z' || lo != 'A' || delta != 32 {
+						okAll = false
+						why = fmt.Sprintf("leaf %s selected with bounds lo=%d(%v) hi=%d(%v)", core.Expr(e), lo, okLo, hi, okHi)
+					}
+				}
+				if nLeaf > 0 {
+					cover := ""
+					if okAll {
+						cover = fullSweep(ia)
+					}
+					c.Check(okAll, "fold-ascii-only:"+core.FuncName(fn), st.Pos(), fn, "an octet of a name is rewritten only when it is within 'A'..'Z' (by +32)", why)
+					if okAll {
+						c.Check(cover == "", "fold-complete:"+core.FuncName(fn), st.Pos(), fn, "every octet within 'A'..'Z' of the whole name is folded", cover)
+					}
+					return
+				}
+			}
 			isElem := func(v ssa.Value) bool {
 				// the byte read from the same slice (range value or indexed load)
 				ld, ok := v.(*ssa.UnOp)
